@@ -46,7 +46,7 @@ def run_config(prog, cfg):
     roots = common.slot_functions(prog, common.DECODER_SLOTS + ["free_struct", "print_struct", "compare_struct"]) | \
         {f.key for f in prog.funcs.values() if not f.static and ("_decode" in f.name or "_fetch_" in f.name or "_skip_" in f.name or "_get_" in f.name)}
     r10 = termination.rule_for(prog, "R04.10", "the decoders (and the free, print and compare functions)", cg.reachable(roots), 60 if cfg == "default" else 20, cfg)
-    return [r1, r04_2(prog, cfg), r3, r04_4(prog, cfg), r04_5(prog, cfg), r04_6(prog, cfg), r04_7(prog, cfg), r04_9(prog, cfg), r10]
+    return [r1, r04_2(prog, cfg), r3, r04_4(prog, cfg), r04_5(prog, cfg), r04_6(prog, cfg), r04_7(prog, cfg), r04_9(prog, cfg), r10, r04_11(prog, cfg)]
 
 
 def run(ctx):
@@ -655,6 +655,55 @@ def r04_4(prog, cfg):
 
 
 # ------------------------------------------------------------------------------------------ R04.9
+def r04_11(prog, cfg):
+    """A buffer that was just found to be empty is not read.  For every read `X->buf[k]` / `*X->buf`: not every path to it
+    runs through the zero edge of a test of `X->size` (with no assignment to X->size in between).  On such a path the
+    buffer holds no octets -- and may be NULL, which is how an empty value is represented."""
+    from ..model import strip_casts, is_var, tree_text, walk
+    from .. import guards
+    r = Rule("R04.11", "the octets of a value buffer are not read where its size is known to be zero", floor=25 if cfg == "default" else 8)
+    for f in sorted(prog.funcs.values(), key=lambda f: f.key):
+        sizes_tested = set()
+        for b in f.blocks.values():
+            if b.term and "cond" in b.term:
+                for n in walk(b.term["cond"].get("full_tree") or b.term["cond"]["tree"]):
+                    if n[0] == "member" and n[2] == "size" and n[3] and is_var(n[1]):
+                        sizes_tested.add(strip_casts(n[1])[1])
+        if not sizes_tested:
+            continue
+        n = 0
+        for b, i, e in f.events("subscript"):
+            bt = strip_casts(e["basex"]["tree"])
+            if not (isinstance(bt, list) and bt and bt[0] == "member" and bt[2] == "buf" and bt[3] and is_var(bt[1])):
+                continue
+            xid = strip_casts(bt[1])[1]
+            if xid not in sizes_tested:
+                continue
+            n += 1
+            key = "%s[%s]#%d" % (tree_text(bt), tree_text(e["index"]["tree"]), n)
+            stxt = tree_text(["member", bt[1], "size", True, bt[4]])
+            zero_edges = guards.edges_given(f, lambda t, stxt=stxt: isinstance(t, list) and guards.canon(t) == stxt, "nonzero")
+            if not zero_edges:
+                r.ok(f, key, "no truth test of %s in this function" % stxt, e["line"], nontrivial=False)
+                continue
+            # blocks that give the size a new value end the knowledge
+            resets = {b2.id for b2, i2, y in f.events("assign") if y.get("lhs_tree") is not None and tree_text(strip_casts(y["lhs_tree"])) == stxt}
+            resets |= {b2.id for b2, i2, y in f.events("assign") if is_var(y.get("lhs_tree"), xid)}
+            pth = guards.reach_path(f, f.entry, b.id, zero_edges)
+            if pth is not None:
+                r.ok(f, key, "reachable without passing the zero edge of a test of %s" % stxt, e["line"])
+                continue
+            # every path passes a zero edge: is the size reassigned after the last one on every path?  (conservative: any
+            # reassignment block that can reach the read clears the finding)
+            if any(b.id in f.reachable_from([rb]) for rb in resets):
+                r.ok(f, key, "%s is assigned again before the read" % stxt, e["line"])
+                continue
+            r.bad(f, key, "every path to this read of `%s` takes the edge on which `%s` is zero: the buffer is empty (and may be NULL) there" % (tree_text(bt), stxt), e["line"])
+    for i_ in r.insts:
+        i_.config = cfg
+    return r
+
+
 def r04_9(prog, cfg):
     """Every direct read of the input is preceded by a look at how much input there is.  In the BER and OER decoders
     (functions with a `const <byte or void> *buf, size_t size` parameter pair reachable from those slots), a dereference
@@ -706,6 +755,26 @@ def r04_9(prog, cfg):
                     v = ui.get("var") or (strip_casts(ui["lhs_tree"])[1] if ui.get("lhs_tree") is not None and is_var(ui["lhs_tree"]) else None)
                     if v:
                         fres.add(v)
+            # lengths taken from the encoding: locals a fetcher writes through an out-parameter, and copies of them
+            wire_lens = set()
+            for b, i, e in f.calls():
+                if e.get("callee") in fetchers:
+                    for a in e.get("args", []):
+                        t = strip_casts(a.get("tree"))
+                        if isinstance(t, list) and t and t[0] == "un" and t[1] == "&" and is_var(t[2]):
+                            wire_lens.add(strip_casts(t[2])[1])
+            ch = True
+            while ch:
+                ch = False
+                for b, i, e in f.events():
+                    tgt = tree = None
+                    if e["k"] == "decl" and "init" in e:
+                        tgt, tree = e["id"], e["init"]["tree"]
+                    elif e["k"] == "assign" and e.get("lhs") == e.get("base") and not e.get("deref") and "rhs" in e and e.get("op") == "=":
+                        tgt, tree = e.get("base_id"), e["rhs"]["tree"]
+                    if tgt and tgt not in wire_lens and tree is not None and is_var(tree) and strip_casts(tree)[1] in wire_lens:
+                        wire_lens.add(tgt)
+                        ch = True
             dom = f.dominators()
             n = 0
             for b, i, e in sorted(f.events(), key=lambda z: (z[2].get("line") or 0, z[0].id, z[1])):
@@ -714,6 +783,7 @@ def r04_9(prog, cfg):
                 n += 1
                 key = "read#%d:%s" % (n, (e.get("lhs") or tree_text(e.get("tree")) or "")[:40])
                 why = None
+                varbound = []
                 for d in dom.get(b.id, ()):
                     tb = f.blocks[d]
                     if not tb.term or "cond" not in tb.term:
@@ -725,7 +795,14 @@ def r04_9(prog, cfg):
                     if vs & szs:
                         # the size test must still speak about the cursor being read: no later re-assignment of the cursor without
                         # a further size test is checked here (numeric); a test anywhere above counts
-                        why = "size test at line %s" % tb.term.get("line")
+                        ct_ = tb.term["cond"].get("full_tree") or tb.term["cond"]["tree"]
+                        others = (vs - szs - al) & wire_lens
+                        has_const = any(x[0] in ("int", "sizeof") for x in walk(ct_))
+                        if others and not has_const:
+                            # `len > size`: vouches for `len` octets, which is none when len is 0
+                            varbound.append((tb.term.get("line"), others))
+                        else:
+                            why = "size test at line %s" % tb.term.get("line")
                     elif vs & fres:
                         # a fetcher vouches for the octets it looked at, i.e. for the cursor as it was: the cursor must not have
                         # been advanced between that test and the read
@@ -741,6 +818,39 @@ def r04_9(prog, cfg):
                                     moved = True
                         if not moved:
                             why = why or "test of a fetcher result at line %s (cursor not advanced since)" % tb.term.get("line")
+                if not why and varbound:
+                    # the only size tests compare the size with a decoded length: they vouch for a first octet only if the
+                    # length is known to be non-zero (some dominating branch tests the length by itself)
+                    for ln, others in varbound:
+                        # the length, or anything computed from it (`bend = b + len`, tested as `b < bend`)
+                        others = set(others)
+                        ch2 = True
+                        while ch2:
+                            ch2 = False
+                            for b3, i3, e3 in f.events():
+                                tgt = tree = None
+                                if e3["k"] == "decl" and "init" in e3:
+                                    tgt, tree = e3["id"], e3["init"]["tree"]
+                                elif e3["k"] == "assign" and e3.get("lhs") == e3.get("base") and not e3.get("deref") and "rhs" in e3:
+                                    tgt, tree = e3.get("base_id"), e3["rhs"]["tree"]
+                                if tgt and tgt not in others and tgt not in szs and tree is not None and any(x[0] == "var" and x[1] in others for x in walk(tree)):
+                                    others.add(tgt)
+                                    ch2 = True
+                        for d in dom.get(b.id, ()):
+                            tb = f.blocks[d]
+                            if d == b.id or not tb.term or "cond" not in tb.term:
+                                continue
+                            vs = {x[1] for x in walk(tb.term["cond"].get("full_tree") or tb.term["cond"]["tree"]) if x[0] == "var"}
+                            if (vs & others) and not (vs & szs):
+                                why = "size test against a length at line %s, and the length is tested by itself at line %s" % (ln, tb.term.get("line"))
+                    if not why:
+                        zl = "the size is only compared with a decoded length (line %s) that is never tested by itself: a zero length passes the test and " \
+                             "this reads the octet after the data" % varbound[0][0]
+                        if (f.name, key) in exc:
+                            r.exc(f, key, exc[(f.name, key)], e["line"])
+                        else:
+                            r.bad(f, key, zl, e["line"])
+                        continue
                 if why:
                     r.ok(f, key, why, e["line"])
                 elif (f.name, key) in exc:
